@@ -272,7 +272,11 @@ def roundtrip(feats: Sequence[str], extra: Sequence[str], res: Dict[str, Any]) -
                 res['violations'].append(core.violation('roundtrip-url/' + type(s.allobjects[k]).__name__, f'{k}: inventory link {got[k]!r}, documented at {expected[k]!r}', case))
                 break
         # exactly once: count payload lines
-        body = zlib.decompress(data.split(b'\n', 4)[4]).decode('utf-8')
+        try:
+            body = zlib.decompress(data.split(b'\n', 4)[4]).decode('utf-8')
+        except Exception as e:  # noqa
+            res['violations'].append(core.violation('own-inventory-payload-unreadable', f'{list(feats)} {list(extra)}: what follows the four header lines of the written inventory is not a zlib stream ({type(e).__name__})', case))
+            return
         names = [l.rsplit(' py:', 1)[0] for l in body.splitlines()]
         dups = sorted({n for n in names if names.count(n) > 1})
         if dups:
